@@ -166,8 +166,72 @@ static int c15_thr_op(toks_t *t)
   return 1;
 }
 
+
+/* thrh nthreads seed iters : instances are created by ONE thread (the main thread, and in a second phase by the neighbouring worker) and
+ * then used by another - never by two threads at once.  Every worker, and the creating thread on an instance of its own at the same
+ * time, makes calls that fail inside the libjpeg layer with a message that names the caller ("Not a JPEG file: starts with 0x.. 0x.."
+ * with bytes derived from the thread and the iteration), and calls that succeed; the error string retrieved for the instance and for the
+ * thread must be the caller's own most recent failure. */
+typedef struct { int id, iters, phase; unsigned long long seed; tjhandle hd, hc, made; pthread_barrier_t *bar; tjhandle *ring; int nt; int bad; char why[200]; } c15_hthr;
+static void c15_fail_check(c15_hthr *t, tjhandle hd, tjhandle hc, int it, int who)
+{
+  unsigned char junk[64]; unsigned char small[16]; unsigned char *sp = small; size_t sn = sizeof(small); char want[64]; const char *es, *eg; int rc, i;
+  unsigned char b0 = (unsigned char)(0x20 + who * 5 + (it % 5)), b1 = (unsigned char)(0x21 + (it * 7 + who) % 90);
+  static const unsigned char px[8 * 8 * 3] = { 1, 200, 3, 90, 5, 60 };
+  if (b0 == 0xFF) b0 = 0x7E;
+  for (i = 0; i < (int)sizeof(junk); i++) junk[i] = (unsigned char)(i * 3 + who);
+  junk[0] = b0; junk[1] = b1;
+  rc = tj3DecompressHeader(hd, junk, sizeof(junk));
+  es = tj3GetErrorStr(hd); eg = tj3GetErrorStr(NULL);
+  snprintf(want, sizeof(want), "starts with 0x%02x 0x%02x", b0, b1);
+  if (!t->bad && (rc != -1 || !strstr(es, want) || !strstr(eg, want))) {
+    t->bad = 1; snprintf(t->why, sizeof(t->why), "thread %d phase %d iteration %d: header of a non-JPEG buffer (%s): rc %d, instance error string '%.60s', thread error string '%.60s'", who, t->phase, it, want, rc, es, eg);
+  }
+  if (hc && (it & 1)) {
+    tj3Set(hc, TJPARAM_NOREALLOC, 1); tj3Set(hc, TJPARAM_QUALITY, 90); tj3Set(hc, TJPARAM_SUBSAMP, TJSAMP_444);
+    rc = tj3Compress8(hc, px, 8, 0, 8, TJPF_RGB, &sp, &sn);
+    es = tj3GetErrorStr(hc);
+    if (!t->bad && (rc != -1 || strstr(es, "No error") || strstr(es, "starts with"))) {
+      t->bad = 1; snprintf(t->why, sizeof(t->why), "thread %d phase %d iteration %d: compression into a 16-byte buffer without reallocation: rc %d, error string '%.80s'", who, t->phase, it, rc, es);
+    }
+  }
+}
+static void *c15_hmain(void *arg)
+{
+  c15_hthr *t = (c15_hthr *)arg; int i;
+  t->phase = 1;
+  for (i = 0; i < t->iters; i++) c15_fail_check(t, t->hd, t->hc, i, t->id);
+  /* phase 2: every worker creates an instance, the next worker uses it */
+  t->made = tj3Init(TJINIT_DECOMPRESS); t->ring[t->id] = t->made;
+  pthread_barrier_wait(t->bar);
+  t->phase = 2;
+  for (i = 0; i < t->iters; i++) c15_fail_check(t, t->ring[(t->id + 1) % t->nt], NULL, i, t->id);
+  pthread_barrier_wait(t->bar);
+  tj3Destroy(t->made);
+  return NULL;
+}
+static int c15_thrh_op(toks_t *t)
+{
+  int nt = (int)tl(t, 1), iters = (int)tl(t, 3), i; unsigned long long seed = (unsigned long long)tll(t, 2); static c15_hthr th[C15_MAXT + 1]; pthread_t pt[C15_MAXT]; pthread_barrier_t bar; tjhandle ring[C15_MAXT]; const char *bad = NULL;
+  if (nt > C15_MAXT) nt = C15_MAXT; if (nt < 2) nt = 2; if (iters > C15_MAXIT) iters = C15_MAXIT;
+  pthread_barrier_init(&bar, NULL, (unsigned)nt);
+  for (i = 0; i <= nt; i++) { memset(&th[i], 0, sizeof(th[i])); th[i].id = i; th[i].iters = iters; th[i].seed = seed; th[i].bar = &bar; th[i].ring = ring; th[i].nt = nt;
+    th[i].hd = tj3Init((i % 3 == 2) ? TJINIT_TRANSFORM : TJINIT_DECOMPRESS); th[i].hc = (i % 3 == 2) ? th[i].hd : tj3Init(TJINIT_COMPRESS); }
+  for (i = 0; i < nt; i++) pthread_create(&pt[i], NULL, c15_hmain, &th[i]);
+  /* the creating thread keeps failing on an instance of its own meanwhile */
+  th[nt].phase = 0;
+  for (i = 0; i < iters * 2; i++) c15_fail_check(&th[nt], th[nt].hd, th[nt].hc, i, nt);
+  for (i = 0; i < nt; i++) pthread_join(pt[i], NULL);
+  for (i = 0; i <= nt; i++) { if (th[i].bad && !bad) bad = th[i].why; if (th[i].hc != th[i].hd) tj3Destroy(th[i].hc); tj3Destroy(th[i].hd); }
+  pthread_barrier_destroy(&bar);
+  printf("R skip handoff %d threads x %d\n", nt, iters);
+  if (bad) printf("O fail thrh: %s\n", bad); else printf("O ok\n");
+  return 1;
+}
+
 static int dispatch_c15(toks_t *t)
 {
+  if (!strcmp(t->tok[0], "thrh") && t->n >= 4) return c15_thrh_op(t);
   if ((!strcmp(t->tok[0], "thr") || !strcmp(t->tok[0], "thr0") || !strcmp(t->tok[0], "thr1")) && t->n >= 4) return c15_thr_op(t);
   return 0;
 }
